@@ -14,15 +14,15 @@ import (
 
 func init() {
 	register("C01",
-		"WIN-1 acceptance discipline in the receive loop: delivery to Recv and the advance of recvSeq happen only under the fact Seq == recvSeq of the received packet, recvSeq advances exactly once per accepted packet as (recvSeq+1) % s before delivery, the ACK carries the accepted packet's Seq and is sent before the advance, on the other leg nothing is delivered or advanced and a NACK carries recvSeq. WIN-2 single producer/consumer of recvDataChan and sendDataChan. WIN-3 retransmission buffer: addPacket labels the packet with top, stores it at content[top] and advances top by (top+1) % s; the send loop queues before the first transmission; resend walks i from a snapshot of base to a snapshot of top with step (i+1) % s and retransmits exactly content[i]. WIN-4 every store to the window base matches one of four (value, guard) templates (exact ACK, cumulative ACK, NACK==top, NACK in window). ORD-1 containsSequence is decided exactly, for all values, by evaluating its decision tree under all 13 weak orderings of (base, top, seq). INV: window fields stay below s, peer sequence numbers are validated before use. WIN-5/SEQSPACE/SIZE (as C09): admission only under size() < n, s = n+1 at every definition, size() in a recognised overflow-free closed form - the window discipline that keeps a resent window distinguishable from the next one. WIN-3 also: the resend walk continues exactly while i != top snapshot and is left otherwise only after a transmission, and no path round the transmission exists inside the loop. SIZE is decided on the linear form of the returned uint8 expression. WIN-1 also: every acknowledged packet (a ping too) uses up its sequence number before the next iteration. Not decided: the interplay of loss/duplication/delay with timers and the resend sync over all schedules (needs model checking); that Send retains the caller's slice.",
+		"WIN-1 acceptance discipline in the receive loop: delivery to Recv and the advance of recvSeq happen only under the fact Seq == recvSeq of the received packet, recvSeq advances exactly once per accepted packet as (recvSeq+1) % s before delivery, the ACK carries the accepted packet's Seq and is sent before the advance, on the other leg nothing is delivered or advanced and a NACK carries recvSeq. WIN-2 single producer/consumer of recvDataChan and sendDataChan. WIN-3 retransmission buffer: addPacket labels the packet with top, stores it at content[top] and advances top by (top+1) % s; the send loop queues before the first transmission; resend walks i from a snapshot of base to a snapshot of top with step (i+1) % s and retransmits exactly content[i]. WIN-4 every store to the window base matches one of four (value, guard) templates (exact ACK, cumulative ACK, NACK==top, NACK in window). ORD-1 containsSequence is decided exactly, for all values, by evaluating its decision tree under all 13 weak orderings of (base, top, seq). INV: window fields stay below s, peer sequence numbers are validated before use. WIN-5/SEQSPACE/SIZE (as C09): admission only under size() < n, s = n+1 at every definition, size() in a recognised overflow-free closed form - the window discipline that keeps a resent window distinguishable from the next one. WIN-3 also: the resend walk continues exactly while i != top snapshot and is left otherwise only after a transmission, and no path round the transmission exists inside the loop. SIZE is decided on the linear form of the returned uint8 expression. WIN-1 also: every acknowledged packet (a ping too) uses up its sequence number before the next iteration. The handshake obligations of C10 are imported (both ends count in the sequence space the handshake agreed on). Not decided: the interplay of loss/duplication/delay with timers and the resend sync over all schedules (needs model checking); that Send retains the caller's slice.",
 		[]string{"uint8 arithmetic wraps; comparison results depend on the ordering of the operands only"},
 		runC01)
 	register("C09",
-		"WIN-5 admission: in the send loop every path from one addPacket to the next passes a block dominated by size() < n; sendDataChan is unbuffered, received only by the send loop's main select and sent only by Send's hand-off (so Send blocks exactly while the loop is not admitting). SEQSPACE: every definition of an s field is X+1 with X the value stored to the sibling n (or config.n) and X <= 254, so the sequence space is strictly larger than the window for every constructor and for setN; syncer.s is the queue's s. SIZE: queue.size() is one of the two accepted closed forms of (top - base) mod s. Plus INV, WIN-4 and ORD-1 as for C01/C07. The lock-order, race and close-site obligations of C18 are imported (Send blocks only until an ACK frees a slot presupposes that the two loops cannot deadlock on the queue's mutexes). The wake-up and timer-ownership obligations of C06 (WAKE, KA-6: the resend timer is stopped only by Close) are imported: a blocked Send is released by the send loop, whose window-full wait falls back on the resend timer when the non-blocking ACK signal was missed. Not decided: the instantaneous outstanding count under all ACK/NACK schedules (follows from these facts only by an inductive argument the checker does not make).",
+		"WIN-5 admission: in the send loop every path from one addPacket to the next passes a block dominated by size() < n; sendDataChan is unbuffered, received only by the send loop's main select and sent only by Send's hand-off (so Send blocks exactly while the loop is not admitting). SEQSPACE: every definition of an s field is X+1 with X the value stored to the sibling n (or config.n) and X <= 254, so the sequence space is strictly larger than the window for every constructor and for setN; syncer.s is the queue's s. SIZE: queue.size() is one of the two accepted closed forms of (top - base) mod s. Plus INV, WIN-4 and ORD-1 as for C01/C07. The lock-order, race and close-site obligations of C18 are imported (Send blocks only until an ACK frees a slot presupposes that the two loops cannot deadlock on the queue's mutexes). The wake-up and timer-ownership obligations of C06 (WAKE, KA-6: the resend timer is stopped only by Close) are imported: a blocked Send is released by the send loop, whose window-full wait falls back on the resend timer when the non-blocking ACK signal was missed. WIN-5 also: Send cuts a non-final chunk only under remainder > max, so a message of k*max bytes takes k window slots. Not decided: the instantaneous outstanding count under all ACK/NACK schedules (follows from these facts only by an inductive argument the checker does not make).",
 		[]string{"uint8 arithmetic wraps"},
 		runC09)
 	register("C10",
-		"GBNHS-1: in serverHandshake the N echoed in the SYN reply and the argument of setN are the same value, read from the N field of a received PacketSYN and proved <= 254; the 'resent' shortcut can only be taken after a SYN was processed. GBNHS-2: in clientHandshake the SYNACK is sent only under respSYN.N == cfg.n and the unequal leg returns an error. GBNHS-3: while waiting for SYN a successfully parsed non-SYN packet cannot complete the handshake without another receive (client: any type; server: except SYNACK/DATA after a restart). GBNHS-4: NewClientConn rejects n == 255 before the config is built. GBNHS-7: in clientHandshake every path from a timeout leg back to the wait passes a send of a serialized SYN; the server's restart shortcut is entered only through a successful type test for SYNACK or DATA. GBNHS-6: every blocking wait of a handshake function that has a timeout alternative is entered with a freshly armed timeout (time.After evaluated, or the timer Reset, on every path from the wait back to itself); every nil return of serverHandshake outside the quit/ctx cases is preceded by setN. GBNHS-5: in both handshake functions every blocking wait on the local packet channel is preceded - from function entry and from the point where the previous packet was taken - by a send attempt on the local token channel that lets the reader goroutine perform the next receive (so a stale packet that is ignored does not leave the handshake waiting for a timeout). GBNHS-5 also: the re-arm send on the token channel is non-blocking. GBNHS-2/3 also: the client SYN carries cfg.n, a non-SYN never ends the client wait, the restart shortcut takes SYNACK and DATA, no send error of a handshake is dropped. GBNHS-2 also: the error leg of the constructors returns a certain error (the tested value, a freshly made error, a package-level error variable) - not the result of a later call such as Close(), which is nil. Not decided: convergence under loss/duplication/stale packets and success once the transport behaves (liveness).",
+		"GBNHS-1: in serverHandshake the N echoed in the SYN reply and the argument of setN are the same value, read from the N field of a received PacketSYN and proved <= 254; the 'resent' shortcut can only be taken after a SYN was processed. GBNHS-2: in clientHandshake the SYNACK is sent only under respSYN.N == cfg.n and the unequal leg returns an error. GBNHS-3: while waiting for SYN a successfully parsed non-SYN packet cannot complete the handshake without another receive (client: any type; server: except SYNACK/DATA after a restart). GBNHS-4: NewClientConn rejects n == 255 before the config is built. GBNHS-7: in clientHandshake every path from a timeout leg back to the wait passes a send of a serialized SYN; the server's restart shortcut is entered only through a successful type test for SYNACK or DATA. GBNHS-6: every blocking wait of a handshake function that has a timeout alternative is entered with a freshly armed timeout (time.After evaluated, or the timer Reset, on every path from the wait back to itself); every nil return of serverHandshake outside the quit/ctx cases is preceded by setN. GBNHS-5: in both handshake functions every blocking wait on the local packet channel is preceded - from function entry and from the point where the previous packet was taken - by a send attempt on the local token channel that lets the reader goroutine perform the next receive (so a stale packet that is ignored does not leave the handshake waiting for a timeout). GBNHS-5 also: the re-arm send on the token channel is non-blocking. GBNHS-2/3 also: the client SYN carries cfg.n, a non-SYN never ends the client wait, the restart shortcut takes SYNACK and DATA, no send error of a handshake is dropped. GBNHS-2 also: the error leg of the constructors returns a certain error (the tested value, a freshly made error, a package-level error variable) - not the result of a later call such as Close(), which is nil. GBNHS-1 also: the packet whose N serverHandshake echoes and adopts is, on every way into the echo code, the result of the most recent Deserialize. Not decided: convergence under loss/duplication/stale packets and success once the transport behaves (liveness).",
 		nil,
 		runC10)
 }
